@@ -7,6 +7,14 @@ ROOT = os.path.dirname(os.path.dirname(os.path.abspath(__file__)))
 ALL = [f"C{i:02d}" for i in range(1, 21)]
 
 CLAIMED = {
+    "C13": dict(
+        text="Bounded symbolic execution (CrossHair/z3) of every storage-touching command through the real dispatcher on a spying MemoryPathIO whose k-th backend call (k symbolic) "
+             "raises OSError through the real universal_exception wrapper: exactly one final reply 451 and no success reply, a detached data connection is closed, no file left open, "
+             "follow-up commands work; end to end over SimNet the real client gets 451 instead of hanging and a parallel session is unaffected.",
+        note="Trusted: CrossHair/z3, SpyPathIO fault injection, scripted channels, SimNet. Outside: backends that hang instead of failing, faults in several non-adjacent calls.",
+        technique="bounded symbolic execution of the real Python code (CrossHair 0.0.110 + z3): symbolic fault position",
+        design_ref="DESIGN.md section 3 C13",
+    ),
     "C01": dict(
         text="Bounded symbolic execution (CrossHair/z3) of STOR/APPE/RETR through the real dispatcher, workers, AsyncStreamIterator, ThrottleStreamIO and MemoryPathIO with symbolic "
              "payload length, block size, restart offset (real REST), old length, network segmentation and short-read sizes against a POSIX reference (exact stored bytes, file[off:] delivered "
